@@ -26,6 +26,17 @@ CHECKS = {
         note="Component level drives one leaf at a time (plus owner power state), not all pairs.",
         design_ref="DESIGN.md §4 C02",
     ),
+    "C09": dict(
+        technique="C01 exploration (BFS + deviation-bounded) with an independent observation decoder compared leaf by leaf",
+        text="On GEN members (scan-gated and true health, NMNE, monitored traffic, file-access counts, sessions, routed and firewall) and "
+             "the shipped data_manipulation scenario, after every explored reset/step every leaf of the blue observation is recomputed "
+             "from the observation configuration and the LIVE simulator objects (hostnames, software names, folder/file names, ACL slots, "
+             "link endpoints; never describe_state) with the documented encoding and compared: enum values, visible vs true health per "
+             "requires_scan, threshold bins, zero/default for absent components and everything under a node that is not ON, NMNE as "
+             "per-observation increase, ACL id maps, link/traffic bins.",
+        note="Encoding conventions listed in the evidence file's assumptions (incl. FTP services reporting STOPPED unless active this step).",
+        design_ref="DESIGN.md §4 C09",
+    ),
     "C11": dict(
         technique="explicit-state BFS + deviation-bounded enumeration over real PrimaiteGymEnv with masking; whole mask vector vs independent request-tree walk; monitor on RequestManager.__call__",
         text="On GEN members with action masking and node durations 0/1/2 (so SHUTTING_DOWN/BOOTING, restarting services and installing "
